@@ -293,7 +293,11 @@ def run(tier):
             c["want_dig"] = True
         cases.append(c)
         m = dict(m, key=key, group=GROUP.get(ep, ep), n=n)
-        if ":amp:" in m["src"]:      # an input derived from an amplification seed keeps that shape's name, whatever else was done to it
+        # an input derived from an amplification seed keeps that shape's name, whatever else was done to it - except when
+        # it was then written out as a chain of >= 100 objects: what such a file costs is the chain's doing (seed 3 drew
+        # MakeChain(nested, 15058) on the seed file-xref-shared-offset and reported the open finding chain.nested under
+        # the name of a repaired shape)
+        if ":amp:" in m["src"] and not str(m.get("rep") or "").startswith("chain."):
             m["rep"] = "shape." + m["src"].split(":amp:", 1)[1].split("+")[0]
         meta.append(m)
 
